@@ -79,7 +79,9 @@ def _same(a, b):
 
 def _delta(I, st0, s, base_pc, base_out, ctlkind, allow_carried=()):
     """What one body execution changed relative to the loop-entry state."""
-    d = {"conds": s.pc[base_pc:], "out": s.out[base_out:], "lists": {}, "carried": {}, "locals": {}}
+    lem = s.ghost.get("lemma_ids", frozenset())
+    d = {"conds": [c for c in s.pc[base_pc:] if c.get_id() not in lem], "out": s.out[base_out:], "lists": {}, "carried": {}, "locals": {},
+         "defs": [x for x in s.ghost.get("defs", ()) if x not in st0.ghost.get("defs", ())]}
     if s.out[:base_out] != st0.out[:base_out]:
         raise OutOfSubset("output prefix changed inside loop")
     for k, v in s.heap.items():
@@ -105,6 +107,8 @@ def _delta(I, st0, s, base_pc, base_out, ctlkind, allow_carried=()):
         else:
             d["locals"][name] = v
     for gk, gv in s.ghost.items():
+        if gk in ("lemma_ids", "defs"):
+            continue
         if st0.ghost.get(gk) is not gv and st0.ghost.get(gk) != gv:
             d["carried"][("ghost", gk)] = gv
     return d
@@ -158,14 +162,29 @@ def _summarise(I, node, st, spec):
     for d in normal:
         list_keys.update(d["lists"].keys())
 
+    all_defs = []
+    for d in normal + exits:
+        for f, lv in d["defs"]:
+            if not any(f.eq(g) for g, _ in all_defs):
+                all_defs.append((f, lv))
+
+    def apply_defs(s):
+        from .interp import add_lemma
+        for f, lv in all_defs:
+            q = z3.ForAll([i], f)
+            add_lemma(s, q)
+            rest = tuple(v for v in lv if not v.eq(i))
+            s.ghost["defs"] = s.ghost.get("defs", ()) + ((q, rest),)
+
     def apply_normal(s, upto):
         """Append the effect of iterations lo..upto-1 (all normal) to state s."""
+        apply_defs(s)
         if not isinstance(normal_alt, Nil):
-            s.out = s.out + (For(i, upto, _shift(normal_alt, i, lo), spec.unordered),)
+            s.out = s.out + (For(i, upto, normal_alt, spec.unordered, lo),)
         for k in list_keys:
             alt = _alt([(_conj(d["conds"]), cat(*d["lists"].get(k, ()))) for d in normal])
             old = s.heap[k]
-            s.heap[k] = dict(old, parts=old["parts"] + (For(i, upto, _shift(alt, i, lo), spec.unordered),))
+            s.heap[k] = dict(old, parts=old["parts"] + (For(i, upto, alt, spec.unordered, lo),))
 
     # Case A: the loop runs to exhaustion
     sA = st.fork()
@@ -317,12 +336,12 @@ def _over_seq(I, node, st, seq):
                     ls.setdefault(k, []).append((c, v))
             return _alt(cs), {k: _alt(v) for k, v in ls.items()}
         if isinstance(sq, For):
-            rng = z3.And(sq.ivar >= 0, sq.ivar < sq.n)
+            rng = sq.rng()
             if not ctx.feasible(st.pc + list(extra_pc) + [rng]):
                 return NIL, {}
             o, l = walk(sq.body, list(extra_pc) + [rng], list(loopvars) + [sq.ivar])
-            return (NIL if isinstance(o, Nil) else For(sq.ivar, sq.n, o, sq.unordered)), \
-                   {k: For(sq.ivar, sq.n, v, sq.unordered) for k, v in l.items() if not isinstance(v, Nil)}
+            return (NIL if isinstance(o, Nil) else For(sq.ivar, sq.n, o, sq.unordered, sq.lo)), \
+                   {k: For(sq.ivar, sq.n, v, sq.unordered, sq.lo) for k, v in l.items() if not isinstance(v, Nil)}
         if isinstance(sq, (Gen, ForErr)):
             elem = ("newerr", ErrVal(base=ErrElem(sq)))
             o, l = at_leaf(elem, list(extra_pc) + [z3.Not(seq_empty(sq))] if _emptiable(sq) else extra_pc, loopvars)
